@@ -78,7 +78,11 @@ Section Evm.
     fold_left (set_state (ea_addr acc)) (ea_storage acc) st.
 
   (** InitGenesis; None = panic.  A panic aborts InitChain, so checking all
-      accounts first and writing afterwards is observationally the Go loop. *)
+      accounts first and writing afterwards is observationally the Go loop.
+      For EVERY listed account, whatever its code: SetCode(keccak(code), code)
+      (a no-op delete for the empty code) and then SetState for every storage
+      entry -- there is no "externally owned account" shortcut in the loop; only
+      the code hash comparison is skipped for the empty code. *)
   Definition evm_init (auth : gmap N auth_acc) (g : evm_gen) : option evm_state :=
     if negb (valid (norm (vg_params g))) then None else
     if negb (forallb (acc_ok auth) (vg_accounts g)) then None else
@@ -86,11 +90,28 @@ Section Evm.
                  (fold_left codes_step (vg_accounts g) ∅)
                  (fold_left stor_step (vg_accounts g) ∅)).
 
+  (** NOT the code: the shape of a seeded defect.  An InitGenesis that takes an exported account with
+      empty code for an externally owned account and `continue`s (after the two account checks)
+      before SetCode and before the storage loop.  Kept beside [evm_init] for the refutation
+      [C19_evm_skip_codeless_refuted]. *)
+  Definition has_code (acc : evm_acc) : bool := negb (ea_code acc =? 0)%N.
+  Definition evm_init_skip_codeless (auth : gmap N auth_acc) (g : evm_gen) : option evm_state :=
+    if negb (valid (norm (vg_params g))) then None else
+    if negb (forallb (acc_ok auth) (vg_accounts g)) then None else
+    let accs := List.filter has_code (vg_accounts g) in
+    Some (mk_evm (norm (vg_params g))
+                 (fold_left codes_step accs ∅)
+                 (fold_left stor_step accs ∅)).
+
   (** operations on (auth accounts, evm state) *)
   Inductive evm_op :=
   | EvCreate (a code : N)        (* contract creation at a: a new EthAccount, or an account that is already there with
                                     nonce 0 and the empty code hash -- of ANY kind, the EVM looks at nonce and code hash
-                                    only; SetAccount records the new hash on the kinds that implement EthAccountI *)
+                                    only; SetAccount records the new hash on the kinds that implement EthAccountI.
+                                    [code = 0]: the constructor returned no code (RETURN of length 0 / STOP): the
+                                    account exists afterwards (nonce 1) with the EMPTY code hash, and the SSTOREs of
+                                    the constructor ([EvSStore] after it, as in StateDB.Commit) stay: an account
+                                    without code and with storage, which is not an externally owned account *)
   | EvNewAcc (a : N) (k : acc_kind)  (* a new account with the empty code hash at an unused address: EOA, clawback vesting
                                     account (MsgCreateClawbackVestingAccount to a fresh address), base / module account *)
   | EvToVesting (a : N)          (* ConvertIntoVestingAccount of an EthAccount: refused for a contract *)
@@ -99,14 +120,18 @@ Section Evm.
   | EvDelete (a : N)             (* DeleteAccount: storage cleared, auth account removed, code left behind *)
   | EvSetParams (p : N).
 
+  (** StateDB.Commit of a created account: keeper.SetCode(keccak(code), code) -- a creation whose
+      constructor returns NO code (RETURN of length 0, or STOP) deletes the entry under the empty
+      hash, i.e. changes nothing *)
   Definition with_code (s : evm_state) (code : N) : evm_state :=
-    mk_evm (ev_params s) (<[hash code := code]> (ev_codes s)) (ev_storage s).
+    mk_evm (ev_params s)
+           (if (code =? 0)%N then delete (hash 0%N) (ev_codes s) else <[hash code := code]> (ev_codes s))
+           (ev_storage s).
 
   Definition evm_step (as_ : gmap N auth_acc * evm_state) (o : evm_op) : gmap N auth_acc * evm_state :=
     let '(auth, s) := as_ in
     match o with
     | EvCreate a code =>
-        if (code =? 0)%N then as_ else
         match auth !! a with
         | None => (<[a := (KEth, hash code)]> auth, with_code s code)
         | Some (k, ch) =>
